@@ -343,7 +343,7 @@ def batched_facets(run):
 
 # ----------------------------------------------------------------------------- bounded
 def bounded(run):
-    cnt = 36 if run.tier == "quick" else 240
+    cnt = 36 if run.tier == "quick" else 240 * run.tmul
     jobs = [dict(seed=run.seed * 53 + k, count=cnt // 12) for k in range(12)]
     res, errs = native.pmap("contracts.C14", "nat_sweep", jobs, timeout=600)
     run.worker_errors(errs, len(jobs))
